@@ -36,3 +36,39 @@ fn h_w_dhcp_decoder_total() {
     // and the well-formed packet still decodes
     assert!(DhcpMessage::from_bytes(packet(2, b"srv", b"boot").into_iter()).is_ok());
 }
+
+//# id=assume.next_ipv4addr fns=BytesExt::next_ipv4addr props=C08,C14 kind=complete pair=
+// validates the ASSUMED contract of BytesExt::next_ipv4addr used by the Verus unit (body: next_u32_be().map(Ipv4Address::from))
+#[cfg_attr(kani, kani::proof)]
+#[cfg_attr(kani, kani::unwind(8))]
+#[cfg_attr(vx_replay, test)]
+fn h_assume_next_ipv4addr() {
+    let b: [u8; 5] = any();
+    let n = (any::<u8>() % 6) as usize;
+    let mut it = b.into_iter().take(n);
+    let r = it.next_ipv4addr();
+    if n >= 4 {
+        assert_eq!(r, Some(Ipv4Address::new([b[0], b[1], b[2], b[3]])));
+        assert_eq!(it.count(), n - 4);
+    } else {
+        assert!(r.is_none());
+    }
+}
+
+//# id=witness.roundtrip props=C08 kind=witness pair=dhcp.DhcpMessage.to_message.emits_the_wire_layout,dhcp.DhcpMessage.from_bytes.decoding_the_encoding_gives_back_the_value,dhcp.DhcpMessage.from_bytes.reencoding_reproduces_the_consumed_bytes
+// decode(encode(x)) == x and encode(decode(b)) == b on a few concrete values (all message types, empty and non-ASCII names)
+#[cfg(vx_replay)]
+#[test]
+fn h_w_dhcp_roundtrip() {
+    for (t, sn, bf) in [(1u8, "", ""), (2, "srv", "boot"), (5, "s\u{e9}rv", ""), (7, "", "b")] {
+        let wire = packet(t, sn.as_bytes(), bf.as_bytes());
+        let m = DhcpMessage::from_bytes(wire.clone().into_iter()).expect("decodes");
+        assert_eq!(m.msg_type as u8, t);
+        let m = DhcpMessage::from_bytes(wire.clone().into_iter()).unwrap();
+        assert_eq!((m.server_name.as_str(), m.boot_file.as_str()), (sn, bf));
+        let again = DhcpMessage::to_message(m).unwrap().to_vec();
+        assert_eq!(again, wire, "re-encoding differs from the consumed bytes");
+        let m2 = DhcpMessage::from_bytes(again.into_iter()).unwrap();
+        assert_eq!(m2, DhcpMessage::from_bytes(wire.into_iter()).unwrap());
+    }
+}
